@@ -121,6 +121,11 @@ CloseData(id, side) ==
   /\ conn' = [conn EXCEPT ![id] = NoConn] /\ UNCHANGED <<alloc, perm, nextId>>
   /\ out' = {[k |-> "closed", id |-> id, what |-> IF side = "peer" THEN "data" ELSE "peerconn"]}
 
+\* what must be observed when peer connections go away with their allocation: the peer side is
+\* closed, and for a bound pair the client's data connection as well
+Gone(S) == {[k |-> "closed", id |-> id, what |-> "peerconn"] : id \in S}
+           \cup {[k |-> "closed", id |-> id, what |-> "data"] : id \in {x \in S : conn[x].bound}}
+
 (* the control connection closes: the allocation and everything it owns go *)
 ControlClose(c) ==
   /\ Live(c)
@@ -129,7 +134,7 @@ ControlClose(c) ==
   /\ perm'  = [perm EXCEPT ![c] = [i \in PeerIPs |-> 0]]
   /\ conn'  = [id \in Ids |-> IF conn[id].open /\ conn[id].owner = c THEN NoConn ELSE conn[id]]
   /\ UNCHANGED nextId
-  /\ out' = {[k |-> "closed", id |-> id, what |-> "peerconn"] : id \in ConnsOf(c)}
+  /\ out' = Gone(ConnsOf(c))
 
 (* Server.Close: every listener and manager is closed, nothing remains; what a control connection *)
 (* that was accepted earlier tries afterwards has no effect                                       *)
@@ -141,7 +146,7 @@ ServerClose ==
   /\ perm'  = [c \in Clients |-> [i \in PeerIPs |-> 0]]
   /\ conn'  = [id \in Ids |-> NoConn]
   /\ UNCHANGED nextId
-  /\ out' = {[k |-> "closed", id |-> id, what |-> "peerconn"] : id \in {x \in Ids : conn[x].open}}
+  /\ out' = Gone({x \in Ids : conn[x].open})
 ProbeAfterClose(c, u) ==
   /\ Down
   /\ last' = [a |-> "ProbeAfterClose", c |-> c, u |-> u]
@@ -164,7 +169,7 @@ Advance(d) ==
                                    ELSE IF conn[id].open /\ ~conn[id].bound THEN [conn[id] EXCEPT !.rem = @ - d]
                                    ELSE conn[id]]
         /\ UNCHANGED nextId
-        /\ out' = {[k |-> "closed", id |-> id, what |-> "peerconn"] : id \in gone}
+        /\ out' = Gone(gone)
 
 LiveNext ==
   \/ \E c \in Clients, u \in Users : Allocate(c, u)
